@@ -30,6 +30,8 @@ SUFFIXES = ["Red", "Green", "Blue", "Low", "High", "Mid", "None", "All", "Read",
             "Alpha", "Beta", "Gamma", "One", "Two", "Ten", "X1", "X2", "Unknown", "OK", "Open", "Option", "Top", "Max_",
             "snake_case", "URL", "Eq", "Err", "Monday", "Friday", "Apple", "Pear", "Kiwi", "Fig", "Plum", "Lime"]
 DIGIT_SUFFIXES = ["200", "404", "500", "7", "0x", "1st"]      # only usable behind a prefix
+# Go identifiers may hold any Unicode letter: names whose byte length, rune count and case mapping differ from ASCII's
+NONASCII_SUFFIXES = ["Très", "Größe", "Ünï", "Café", "Ωmega", "日本語版", "Žluťoučký", "Ñandú", "ÄÖÜß", "Éé", "Ðóttir", "Смена"]
 GO_RESERVED = {"break", "case", "chan", "const", "continue", "default", "defer", "else", "fallthrough", "for", "func", "go", "goto",
                "if", "import", "interface", "map", "package", "range", "return", "select", "struct", "switch", "type", "var",
                "string", "int", "uint", "bool", "byte", "rune", "error", "true", "false", "nil", "iota", "len", "cap", "any",
@@ -186,13 +188,15 @@ class EnumGen:
         self.rng = rng
 
     # -- names ------------------------------------------------------------------------------
-    def namer(self, T, style):
+    def namer(self, T, style, nonascii=0.05):
         rng = self.rng
         used = set()
         pool = list(SUFFIXES)
         rng.shuffle(pool)
         digits = list(DIGIT_SUFFIXES)
         rng.shuffle(digits)
+        uni = list(NONASCII_SUFFIXES)
+        rng.shuffle(uni)
 
         def nxt(force=None):
             for _ in range(200):
@@ -201,6 +205,8 @@ class EnumGen:
                     st = rng.choice(["prefixed", "plain", "lower"])
                 if st == "prefixed" and digits and rng.random() < 0.12:
                     suf = digits.pop()
+                elif uni and rng.random() < nonascii:
+                    suf = uni.pop()
                 else:
                     suf = pool.pop() if pool else "N%d" % rng.randint(0, 10 ** 6)
                 if st == "prefixed":
@@ -257,7 +263,7 @@ class EnumGen:
             style = "prefixed"
         if feature == "accidental-prefix":
             T, style = rng.choice([("Op", "plain"), ("T", "plain")])
-        nxt, used = self.namer(T, style)
+        nxt, used = self.namer(T, style, nonascii=0.5 if feature == "non-ascii" else 0.05)
         small = hi <= 127
         top = min(hi, 100 if small else rng.choice([40, 300, 5000, 10 ** 6, hi]))
         aux = False
@@ -269,6 +275,8 @@ class EnumGen:
         blocks = []
         budget = rng.randint(1, 9)
         segkinds = ["iota", "offset", "shift", "explicit", "multi", "lin", "hex"]
+        if feature == "near-dense":
+            nblocks = 0
         for bi in range(nblocks):
             specs = []
             nseg = rng.choice([1, 1, 2, 3])
@@ -325,6 +333,26 @@ class EnumGen:
                 specs += self._distractor(rng, used)
             paren = len(specs) > 1 or rng.random() < 0.6
             blocks.append({"paren": paren, "specs": specs})
+        if feature == "near-dense":
+            # a small value set {0 … n-1+gaps} with 0-3 gaps, explicit values, in a declaration order that is ascending, descending or
+            # shuffled, the smallest value often declared first and the value n-1 (= number of constants - 1) often declared last:
+            # whatever looks at the first / last COLLECTED constant sees the ends of a dense-looking range although the set has gaps
+            n = rng.randint(3, 7)
+            extra = rng.randint(0, 3)
+            vals = [0] + rng.sample(range(1, n + extra), n - 1)
+            order = rng.choice(["asc", "desc", "shuffled", "shuffled", "shuffled"])
+            vals = sorted(vals) if order == "asc" else sorted(vals, reverse=True) if order == "desc" else vals
+            if order == "shuffled":
+                rng.shuffle(vals)
+                if rng.random() < 0.7:
+                    vals.remove(0)
+                    vals.insert(0, 0)
+                if (n - 1) in vals and vals[0] != n - 1 and rng.random() < 0.7:
+                    vals.remove(n - 1)
+                    vals.append(n - 1)
+            specs = [{"names": [nxt()], "form": "t", "ty": T, "exprs": [("lit", v)]} for v in vals]
+            k = rng.randint(1, len(specs) - 1) if rng.random() < 0.3 else len(specs)
+            blocks = [{"paren": True, "specs": sp} for sp in (specs[:k], specs[k:]) if sp]
         if not blocks:
             return None
         # shaped regions
@@ -1976,6 +2004,8 @@ def features_of(en):
                     for n in s["names"]:
                         if n != "_":
                             fs.add("prefixed" if n.startswith(T) else "unprefixed")
+                            if not n.isascii():
+                                fs.add("non-ascii-name")
                             if n.startswith(T + T):
                                 fs.add("doubled-prefix")
                             elif T in n[1:]:
